@@ -108,6 +108,9 @@ func main() {
 				}
 				return true
 			})
+			if want["capture"] {
+				captureParams(f)
+			}
 			if want["invertif"] {
 				invertIfs(f)
 			}
@@ -241,4 +244,42 @@ func reorderDecls(f *ast.File) {
 	}
 	f.Decls = append(others, funcs...)
 	f.Comments = nil
+}
+
+
+// captureParams inserts, at the top of every function body, a never-called closure that mentions every named
+// parameter and the receiver: `_ = func() { _ = a; _ = b }`. It changes nothing at run time but makes go/ssa keep
+// those parameters in memory cells (captured variables are not lifted to registers).
+func captureParams(f *ast.File) {
+	for _, d := range f.Decls {
+		fd, ok := d.(*ast.FuncDecl)
+		if !ok || fd.Body == nil {
+			continue
+		}
+		var names []string
+		add := func(fl *ast.FieldList) {
+			if fl == nil {
+				return
+			}
+			for _, fld := range fl.List {
+				for _, nm := range fld.Names {
+					if nm.Name != "_" {
+						names = append(names, nm.Name)
+					}
+				}
+			}
+		}
+		add(fd.Recv)
+		add(fd.Type.Params)
+		if len(names) == 0 {
+			continue
+		}
+		var stmts []ast.Stmt
+		for _, nm := range names {
+			stmts = append(stmts, &ast.AssignStmt{Lhs: []ast.Expr{ast.NewIdent("_")}, Tok: token.ASSIGN, Rhs: []ast.Expr{ast.NewIdent(nm)}})
+		}
+		lit := &ast.FuncLit{Type: &ast.FuncType{Params: &ast.FieldList{}}, Body: &ast.BlockStmt{List: stmts}}
+		first := &ast.AssignStmt{Lhs: []ast.Expr{ast.NewIdent("_")}, Tok: token.ASSIGN, Rhs: []ast.Expr{lit}}
+		fd.Body.List = append([]ast.Stmt{first}, fd.Body.List...)
+	}
 }
